@@ -104,7 +104,7 @@ def check_history(cfg, ops, remount_every=1, want=None, stop_on_first=False, io_
                         par = op[1].rsplit("/", 1)[0] if op[0] != "copy" and op[0] != "move" else op[2].rsplit("/", 1)[0]
                         rootfull = (g.type != 32 and par in ("", "/"))
                         if not rootfull:
-                            add(["C01"], "enospc-spurious", "%s refused with %d free clusters, needs <= %d" % (opkind(op), freec, need), i)
+                            add(["C01", "C09"], "enospc-spurious", "%s refused with %d free clusters, needs <= %d" % (opkind(op), freec, need), i)
                 except specfat.FatError as e:
                     add(["C04"], "image-unreadable", str(e), i)
                 # C09: nothing may have changed — at the level of the primitive that failed: the
